@@ -295,7 +295,7 @@ def c17(tier):
         f = os.path.join(wd, 'sw%d.bc' % i)
         open(f, 'wb').write(bytes(o['bytes']))
         rc, so, se = sh([exe, 'disassemble', f], wd)
-        return [{'key': sw[i]['name'] + ' :: listing', 'val': {'ok': True, 'd': hashlib.sha1(o['listing'].encode('utf-8')).hexdigest()}, 'cfg': 'in-process Display of the loaded program'},
+        return [{'key': sw[i]['name'] + ' :: listing', 'val': {'ok': True, 'd': hashlib.sha1((o['listing'] + '\n').encode('utf-8')).hexdigest()}, 'cfg': 'in-process Display of the loaded program, followed by a line break (println!)'},
                 {'key': sw[i]['name'] + ' :: listing', 'val': {'ok': rc == 0, 'd': hashlib.sha1(so).hexdigest()}, 'cfg': '`fml disassemble FILE`'}]
     sobs = []
     with ThreadPoolExecutor(max_workers=12) as ex:
